@@ -18,3 +18,233 @@ kproof! {
         kani::cover!(buf.len() == 1, "one-byte varint");
     }
 }
+
+// ---------------------------------------------------------------------------
+// C13 seams: fragmenting / failing reader and writer
+// ---------------------------------------------------------------------------
+pub const FR_N: usize = 12;
+/// Source over a fixed buffer whose every `read` returns a solver-chosen 1..=want bytes,
+/// may report ErrorKind::Interrupted (at most `intr` times), and fails hard at offset `fail_at`.
+pub struct FragRead {
+    pub data: [u8; FR_N],
+    pub len: usize,
+    pub pos: usize,
+    pub fail_at: usize, // >= len+1 means never
+    pub intr: u8,
+    pub failed: bool,
+}
+impl Read for FragRead {
+    fn read(&mut self, buf: &mut [u8]) -> std::io::Result<usize> {
+        if buf.is_empty() { return Ok(0); }
+        if self.pos >= self.fail_at {
+            self.failed = true;
+            return Err(std::io::Error::from(std::io::ErrorKind::BrokenPipe));
+        }
+        if self.intr > 0 && kani::any() {
+            self.intr -= 1;
+            return Err(std::io::Error::from(std::io::ErrorKind::Interrupted));
+        }
+        if self.pos >= self.len { return Ok(0); }
+        let avail = core::cmp::min(core::cmp::min(buf.len(), self.len - self.pos), self.fail_at - self.pos);
+        let k: usize = kani::any();
+        kani::assume(k >= 1 && k <= avail);
+        let mut i = 0;
+        while i < k { buf[i] = self.data[self.pos + i]; i += 1; }
+        self.pos += k;
+        Ok(k)
+    }
+}
+/// Destination that accepts a solver-chosen 1..=n bytes per write and fails at offset `fail_at`.
+pub struct FragWrite {
+    pub out: [u8; FR_N],
+    pub n: usize,
+    pub fail_at: usize,
+    pub failed: bool,
+}
+impl Write for FragWrite {
+    fn write(&mut self, buf: &[u8]) -> std::io::Result<usize> {
+        if buf.is_empty() { return Ok(0); }
+        if self.n >= self.fail_at {
+            self.failed = true;
+            return Err(std::io::Error::from(std::io::ErrorKind::BrokenPipe));
+        }
+        let room = core::cmp::min(buf.len(), self.fail_at - self.n);
+        let k: usize = kani::any();
+        kani::assume(k >= 1 && k <= room);
+        let mut i = 0;
+        while i < k {
+            assert!(self.n + i < FR_N, "more bytes written than the original file holds");
+            self.out[self.n + i] = buf[i];
+            i += 1;
+        }
+        self.n += k;
+        Ok(k)
+    }
+    fn flush(&mut self) -> std::io::Result<()> { Ok(()) }
+}
+
+/// container of <= 2 literal chunks built with the real writer from a symbolic file
+fn literal_container(file: &[u8; 6], flen: usize, split: usize) -> Vec<u8> {
+    let mut c: Vec<u8> = Vec::new();
+    c.push(COMPRESSED_WRAPPER_VERSION_1);
+    write_chunk_block(BlockChunk::Literal(split), &file[..flen], &mut c).unwrap();
+    if split < flen {
+        write_chunk_block(BlockChunk::Literal(flen - split), &file[split..flen], &mut c).unwrap();
+    }
+    c
+}
+
+kproof! {
+    /// K01c: literal chunks written by write_chunk_block are read back verbatim by recreated_zlib_chunks
+    fn k01c_literal_chunks_rt() {
+        let file: [u8; 6] = kani::any();
+        let flen: usize = kani::any();
+        let split: usize = kani::any();
+        kani::assume(flen <= 6 && split <= flen);
+        let c = literal_container(&file, flen, split);
+        let mut src = &c[..];
+        let mut out: Vec<u8> = Vec::new();
+        let r = recreated_zlib_chunks(&mut src, &mut out);
+        assert!(r.is_ok());
+        assert!(out.len() == flen);
+        let mut i = 0;
+        while i < 6 { if i < flen { assert!(out[i] == file[i]); } i += 1; }
+        kani::cover!(flen == 6 && split == 2, "two chunks");
+        kani::cover!(flen == 0, "empty file");
+        core::mem::forget(out); core::mem::forget(c);
+    }
+}
+
+kproof! {
+    /// K13a: same output however the source fragments reads (incl. Interrupted) and the destination
+    /// accepts partial writes; no injected hard error.
+    fn k13a_fragmented_io() {
+        let file: [u8; 6] = kani::any();
+        let flen: usize = kani::any();
+        let split: usize = kani::any();
+        kani::assume(flen <= 6 && split <= flen);
+        let c = literal_container(&file, flen, split);
+        assert!(c.len() <= FR_N);
+        let mut data = [0u8; FR_N];
+        let mut i = 0;
+        while i < FR_N { if i < c.len() { data[i] = c[i]; } i += 1; }
+        let mut src = FragRead { data, len: c.len(), pos: 0, fail_at: FR_N + 1, intr: 2, failed: false };
+        let mut dst = FragWrite { out: [0; FR_N], n: 0, fail_at: FR_N + 1, failed: false };
+        let r = recreated_zlib_chunks(&mut src, &mut dst);
+        assert!(r.is_ok(), "fragmented I/O without errors must succeed");
+        assert!(dst.n == flen, "output length depends on fragmentation");
+        let mut i = 0;
+        while i < 6 { if i < flen { assert!(dst.out[i] == file[i], "output depends on fragmentation"); } i += 1; }
+        kani::cover!(flen == 6 && split == 3 && src.intr == 0, "two chunks, two interrupts");
+        core::mem::forget(c); core::mem::forget(r);
+    }
+}
+
+kproof! {
+    /// K13b: a hard I/O error at any source or destination offset gives Err (no panic) and the
+    /// bytes accepted by the destination are a prefix of the original file.
+    fn k13b_io_faults() {
+        let file: [u8; 6] = kani::any();
+        let flen: usize = kani::any();
+        let split: usize = kani::any();
+        kani::assume(flen <= 6 && split <= flen);
+        let c = literal_container(&file, flen, split);
+        let mut data = [0u8; FR_N];
+        let mut i = 0;
+        while i < FR_N { if i < c.len() { data[i] = c[i]; } i += 1; }
+        let sf: usize = kani::any();
+        let df: usize = kani::any();
+        kani::assume(sf <= FR_N + 1 && df <= FR_N + 1);
+        let mut src = FragRead { data, len: c.len(), pos: 0, fail_at: sf, intr: 1, failed: false };
+        let mut dst = FragWrite { out: [0; FR_N], n: 0, fail_at: df, failed: false };
+        let r = recreated_zlib_chunks(&mut src, &mut dst);
+        if src.failed || dst.failed {
+            assert!(r.is_err(), "an I/O error was swallowed");
+        } else {
+            assert!(r.is_ok());
+            assert!(dst.n == flen);
+        }
+        assert!(dst.n <= flen);
+        let mut i = 0;
+        while i < 6 { if i < dst.n { assert!(dst.out[i] == file[i], "bytes written before the failure are not a prefix of the file"); } i += 1; }
+        kani::cover!(src.failed && dst.n > 0, "source failed after some output");
+        kani::cover!(dst.failed && dst.n > 0, "destination failed mid-way");
+        kani::cover!(!src.failed && !dst.failed && flen == 6, "no fault");
+        core::mem::forget(c); core::mem::forget(r);
+    }
+}
+
+// ---------------------------------------------------------------------------
+// C11: zstd wrappers over the framing model (shims/zstd)
+// ---------------------------------------------------------------------------
+kproof! {
+    /// K11a: decompress_zstd(compress_zstd(F), cap) == F when cap >= expanded size, Err when smaller;
+    /// the real scanner and container code run on F (<= 3 bytes: literal-only containers).
+    fn k11a_zstd_roundtrip() {
+        let file: [u8; 3] = kani::any();
+        let flen: usize = kani::any();
+        kani::assume(flen <= 3);
+        let z = compress_zstd(&file[..flen], 0);
+        assert!(z.is_ok());
+        let z = z.unwrap();
+        // expanded size under the model = frame content length
+        let expanded = z.len() - 8;
+        let cap: usize = kani::any();
+        kani::assume(cap <= 16);
+        let r = decompress_zstd(&z, cap);
+        if cap >= expanded {
+            assert!(r.is_ok(), "sufficient capacity rejected");
+            let out = r.unwrap();
+            assert!(out.len() == flen);
+            let mut i = 0;
+            while i < 3 { if i < flen { assert!(out[i] == file[i]); } i += 1; }
+            core::mem::forget(out);
+        } else {
+            assert!(r.is_err(), "undersized capacity must be an error, never truncated data");
+            core::mem::forget(r);
+        }
+        kani::cover!(cap == expanded && flen == 3, "exact capacity");
+        kani::cover!(cap + 1 == expanded, "one byte short");
+        core::mem::forget(z);
+    }
+}
+kproof! {
+    /// K11b: input that is not a frame is an Err, never a panic
+    fn k11b_zstd_not_a_frame() {
+        let data: [u8; 10] = kani::any();
+        let n: usize = kani::any();
+        kani::assume(n <= 10);
+        let cap: usize = kani::any();
+        kani::assume(cap <= 16);
+        let well_formed = n >= 8 && data[0..4] == zstd::bulk::MAGIC
+            && u32::from_le_bytes([data[4], data[5], data[6], data[7]]) as usize == n - 8;
+        let r = decompress_zstd(&data[..n], cap);
+        if !well_formed { assert!(r.is_err()); }
+        kani::cover!(well_formed && r.is_ok(), "a well-formed frame with a valid container");
+        kani::cover!(well_formed && r.is_err(), "well-formed frame, bad container");
+        core::mem::forget(r);
+    }
+}
+
+kproof! {
+    /// K04i: container byte layout equals the reference build's: varints, literal chunk framing, IDAT descriptor
+    fn k04i_container_bytes_equiv() {
+        let v: u32 = kani::any();
+        let (a, an) = super::verif_export::varint_bytes(v);
+        let (b, bn) = preflate_ref::preflate_container::verif_export::varint_bytes(v);
+        assert!(an == bn && a == b, "varint encoding differs from the reference build");
+        let d: [u8; 3] = kani::any();
+        let n: usize = kani::any();
+        kani::assume(n <= 3);
+        let (c, cn) = super::verif_export::literal_chunk_bytes(&d[..n]);
+        let (e, en) = preflate_ref::preflate_container::verif_export::literal_chunk_bytes(&d[..n]);
+        assert!(cn == en && c == e, "literal chunk framing differs from the reference build");
+        let s0: u32 = kani::any(); let s1: u32 = kani::any(); let k: usize = kani::any();
+        kani::assume(k <= 2 && s0 < (1 << 28) && s1 < (1 << 28));
+        let hdr: [u8; 2] = kani::any(); let ad: u32 = kani::any();
+        let (f, fnn) = crate::idat_parse::verif_export::idat_desc_bytes(s0, s1, k, hdr, ad);
+        let (g, gn) = preflate_ref::idat_parse::verif_export::idat_desc_bytes(s0, s1, k, hdr, ad);
+        assert!(fnn == gn && f == g, "IDAT descriptor layout differs from the reference build");
+        kani::cover!(an == 5 && k == 2, "five-byte varint, two chunks");
+    }
+}
